@@ -6,6 +6,7 @@ import (
 	"fmt"
 	"os"
 	"path/filepath"
+	"runtime/debug"
 	"sort"
 	"strings"
 	"testing"
@@ -59,7 +60,7 @@ func (cfg vfCfg) sig() string {
 
 // vfFidelityCase runs one fault-free transfer and applies the C01 oracle. Returns the session
 // (already closed) so that callers can add property-specific observations.
-func vfFidelityCase(c *vfCtx, cfg vfCfg, tops []string, specs []vfFileSpec, prep func(src, dst string), after func(s *vfSession)) {
+func vfFidelityCase(c *vfCtx, cfg vfCfg, tops []string, specs []vfFileSpec, prep func(src, dst string), after func(s *vfSession), setup ...func(s *vfSession)) {
 	src := filepath.Join(c.Dir, "src")
 	dst := filepath.Join(c.Dir, "dst")
 	os.MkdirAll(src, 0755)
@@ -80,6 +81,9 @@ func vfFidelityCase(c *vfCtx, cfg vfCfg, tops []string, specs []vfFileSpec, prep
 	c.Replay(map[string]interface{}{"cfg": cfg, "tops": tops, "specs": specs})
 
 	s := vfNewSession(c, cfg)
+	for _, f := range setup {
+		f(s)
+	}
 	t0 := time.Now()
 	s.Start(paths, dst)
 	bound := 150 * time.Second
@@ -314,5 +318,65 @@ func TestVF_C01(t *testing.T) {
 			vfFidelityCase(c, cfg, tops, specs, nil, nil)
 		}})
 	}
+	if os.Getenv("VF_FDCASES") != "" {
+		// more files in one transfer than the process may hold open at once: descriptors in use must not
+		// grow with the number of files (one case at a time per child, GC off so finalizers cannot help)
+		cases = nil
+		for i, nfiles := range []int{60, 300} {
+			for _, dir := range []string{"down", "up"} {
+				for _, mode := range []string{"files", "dir-y", "archive"} {
+					i, nfiles, dir, mode := i, nfiles, dir, mode
+					cases = append(cases, vfCase{ID: fmt.Sprintf("fd-%s-%s-%d", dir, mode, nfiles), Run: func(c *vfCtx) {
+						vfFdCase(c, dir, mode, nfiles, i)
+					}})
+				}
+			}
+		}
+		vfRunCases(t, "C01", cases, 1, 400*time.Second)
+		return
+	}
 	vfRunCases(t, "C01", cases, 3, 400*time.Second)
+}
+
+func vfFdCase(c *vfCtx, dir, mode string, nfiles int, i int) {
+	old := debug.SetGCPercent(-1)
+	defer debug.SetGCPercent(old)
+	cfg := vfCfg{Dir: dir, Timeout: 60, Quiet: true, Direct: i%2 == 0}
+	var specs []vfFileSpec
+	var tops []string
+	if mode == "files" {
+		for k := 0; k < nfiles; k++ {
+			n := fmt.Sprintf("f%04d.bin", k)
+			specs = append(specs, vfFileSpec{Rel: n, Size: 10 + k%50, Content: "rand"})
+			tops = append(tops, n)
+		}
+	} else {
+		cfg.Directory = true
+		cfg.Overwrite = mode == "dir-y"
+		specs = append(specs, vfFileSpec{Rel: "many", Dir: true})
+		for k := 0; k < nfiles; k++ {
+			specs = append(specs, vfFileSpec{Rel: fmt.Sprintf("many/s%d/f%04d.bin", k%5, k), Size: 10 + k%50, Content: "rand"})
+		}
+		tops = []string{"many"}
+	}
+	base := vfCountFDs()
+	peak := 0
+	vfFidelityCase(c, cfg, tops, specs, nil, func(s *vfSession) {}, func(s *vfSession) {
+		sample := func(ev vfGateEvent) {
+			if ev.Type == "NAME" || ev.Type == "MD5" || ev.Type == "DATA" {
+				if n := vfCountFDs() - base; n > peak {
+					peak = n
+				}
+			}
+		}
+		s.cliW().SetGate(sample)
+		s.srvW().SetGate(sample)
+	})
+	c.Obs(fmt.Sprintf("fd_peak_over_baseline_%d_files", nfiles), int64(peak))
+	if c.Failed() {
+		return
+	}
+	if peak > 40 {
+		c.Viol("c01-descriptors-grow-with-file-count", "%s %s: %d descriptors over the baseline were in use during a transfer of %d files (GC disabled): open files grow with the number of files in one transfer", dir, mode, peak, nfiles)
+	}
 }
